@@ -634,6 +634,16 @@ def r14_11(prog: Program, rep):
     rep.ob("R14.11", m.rel, f.qual, "a peeled value is returned only after the loose ref of that name was looked at", bool(loose) and not bad,
            "packed-refs alone decides: after a tag was re-created (loose file overriding the packed line) the peeled commit of the OLD tag is served and advertised",
            g.nodes[(bad or rets)[0]].line)
+    # "known not to be a tag" (a packed ref without ^ line) is what the `peeled` trait says only for refs below refs/tags/; for all refs
+    # only `fully-peeled` says it
+    gp = m.funcs.get("DiskRefsContainer.get_peeled")
+    known_not = [r_ for r_ in ast.walk(gp.node) if isinstance(r_, ast.Return) and r_.value is not None and norm(r_.value) in ("self[name]", "self.read_ref(name)")]
+    scoped = any(isinstance(t_, ast.If) and ("fully" in norm(t_.test) or "LOCAL_TAG_PREFIX" in norm(t_.test) or "refs/tags" in norm(t_.test)) and any(any(y is r_ for y in ast.walk(b_)) for b_ in t_.body)
+                 for t_ in ast.walk(gp.node) for r_ in known_not) if known_not else True
+    rep.ob("R14.11", m.rel, gp.qual, "a packed ref without peeled line counts as 'not a tag' only below refs/tags/ or under fully-peeled", scoped,
+           "under `# pack-refs with: peeled` (what dulwich writes) every packed ref without a ^ line is reported as known-not-a-tag: a ref outside refs/tags/ that "
+           "points at an annotated tag (refs/remotes/origin/tags/v1) peels to the commit while loose and to the tag object once packed; git peels it either way",
+           (known_not[0].lineno if known_not else gp.node.lineno))
     f = m.funcs.get("DiskRefsContainer.add_packed_refs")
     ws = [c for c in ast.walk(f.node) if isinstance(c, ast.Call) and callee_name(c) == "write_packed_refs" and len(c.args) >= 3]
     if not ws:
@@ -687,8 +697,31 @@ def r14_12(prog: Program, rep):
            (tests[0].lineno if tests else f.node.lineno))
 
 
+def r14_14(prog: Program, rep):
+    """(a) MIDX reader: the top bit of a 32-bit offset is the large-offset escape only when the LOFF chunk exists (git writes that
+    chunk only when some offset needs more than 32 bits) - the escape branch is conditioned on the chunk's presence and does not
+    raise for its absence; (b) packed-refs reader: the first line is taken with a default (an emptied file has no lines)."""
+    m = prog.module("dulwich/midx.py")
+    f = m.funcs.get("MultiPackIndex._get_pack_info")
+    if f is None:
+        raise AnalysisError("midx.MultiPackIndex._get_pack_info not found")
+    esc = [t for t in ast.walk(f.node) if isinstance(t, ast.If) and ("2147483648" in norm(t.test) or "0x80000000" in norm(t.test).lower() or "<< 31" in norm(t.test))]
+    if not esc:
+        raise AnalysisError("_get_pack_info: the test of the large-offset bit not found")
+    ok = all("LOFF" in norm(t.test) for t in esc) and not any(isinstance(r, ast.Raise) and "LOFF" in norm(r) for t in esc for r in ast.walk(t))
+    rep.ob("R14.14", m.rel, f.qual, "the large-offset escape applies only when the LOFF chunk exists", ok,
+           "an offset between 2^31 and 2^32 in a multi-pack-index without LOFF chunk (what git writes for a 2-4 GiB pack) raises ValueError, which the object "
+           "store does not treat as a miss: the objects are unreadable while the file is present", esc[0].lineno)
+    r = prog.module("dulwich/refs.py").funcs.get("DiskRefsContainer.get_packed_refs")
+    nx = [c for c in ast.walk(r.node) if isinstance(c, ast.Call) and callee_name(c) == "next"]
+    rep.ob("R14.14", "dulwich/refs.py", r.qual, "the header line is read with a default: an empty packed-refs file has no lines", all(len(c.args) >= 2 for c in nx),
+           "next(iter(f)) raises StopIteration for a zero-byte packed-refs file (left when the last entry of a header-less file is removed): every ref query and "
+           "update fails until the file is deleted by hand", (nx[0].lineno if nx else r.node.lineno))
+
+
 def run(prog: Program, rep, tier="quick"):
     rep.rule("R14.12", "the generated commit graph is closed under the parent relation (no existing parent is encoded as GRAPH_PARENT_MISSING)")
+    rep.rule("R14.14", "MIDX large-offset escape only with a LOFF chunk; an empty packed-refs file reads as no packed refs")
     rep.rule("R14.9", "SAME CLOSURE: the graph provider includes the starting trees and excludes the whole ancestry of the excluded commits, as bitmaps do")
     rep.rule("R14.10", "a commit bitmap is written only when the pack holds everything the commit reaches (objects without a position are reported, not dropped)")
     rep.rule("R14.11", "peeled values belong to the packed value: loose override seen first, stale entries dropped, no trait = unknown, trait not claimed for unknown tags")
@@ -714,6 +747,7 @@ def run(prog: Program, rep, tier="quick"):
     r14_10(prog, rep)
     r14_11(prog, rep)
     r14_12(prog, rep)
+    r14_14(prog, rep)
     from rules import c16 as _c16
     from sa.common import share as _share
     _share(rep, lambda: _c16.r16_12(prog, rep), "R14.13", lambda o: True,
